@@ -73,6 +73,26 @@ def internal_code(p):
     return z3.Or(z3.PrefixOf(z3.StringVal(PREF), p), z3.Contains(p, z3.StringVal("/" + PREF)))
 
 
+class BytesPath(SVal):
+    """a path given as bytes (h5py accepts them): not text — str methods with a text argument raise TypeError (T4)"""
+
+    def py_isinstance(self, cx, c):
+        names = c if isinstance(c, (tuple, list)) else [c]
+        return any(getattr(n, "name", n) in ("bytes", "object") for n in names)
+
+    def meth_startswith(self, cx, x, *a):
+        cx.py_raise("TypeError", "startswith first arg must be bytes or a tuple of bytes, not str")
+
+    def meth_find(self, cx, x, *a):
+        cx.py_raise("TypeError", "argument should be integer or bytes-like object, not 'str'")
+
+    def py_getitem(self, cx, i):
+        return 47  # an int (indexing bytes gives integers), never equal to the text "/"
+
+    def py_truth(self, cx):
+        return True
+
+
 class IsInternalPath(FnSpec):
     file = "container/utils.py"
     qual = "is_internal_path"
@@ -80,9 +100,20 @@ class IsInternalPath(FnSpec):
     pure = True
 
     def setup(self, cx):
-        return A(path=SStr(z3.String("path")), pref=PREF)
+        if cx.choose(2) == 1:
+            a = A(path=BytesPath(), pref=PREF)
+            a.is_bytes = True
+            return a
+        a = A(path=SStr(z3.String("path")), pref=PREF)
+        a.is_bytes = False
+        return a
+
+    def raises(self, cx, a):
+        return {"TypeError": z3.BoolVal(bool(a.get("is_bytes")))}
 
     def ensures(self, cx, a, res):
+        if a.get("is_bytes"):
+            return [("a-path-that-is-not-text-is-never-judged", z3.BoolVal(False), "a bytes path is refused (TypeError), never answered 'not reserved'")]
         p = a.path.t
         r = as_bool(cx, res if not isinstance(res, bool) else z3.BoolVal(res)) if isinstance(res, (SBool, bool)) or z3.is_bool(res) else None
         if r is None:
@@ -96,6 +127,8 @@ class IsInternalPath(FnSpec):
 
     def result(self, cx, a):
         p = a.path
+        if isinstance(p, BytesPath):
+            cx.py_raise("TypeError", "a bytes path is not judged")
         pt = p.t if isinstance(p, SStr) else z3.StringVal(p)
         return SBool(internal_code(pt))
 
@@ -170,19 +203,28 @@ class GuardPath(FnSpec):
         self.bindings["NodeAcl"] = NodeAclEnum()
 
     def setup(self, cx):
+        if cx.choose(2) == 1:
+            return A(self=node_obj(cx), path=BytesPath())
         return A(self=node_obj(cx), path=SStr(z3.String("path")))
 
     def requires(self, cx, a):
         p = a.path
+        if isinstance(p, BytesPath):
+            return []
         return [("non-empty-path", (z3.Length(p.t) > 0) if isinstance(p, SStr) else z3.BoolVal(len(p) > 0))]
 
     def cond(self, cx, a):
         p = a.path
+        if isinstance(p, BytesPath):
+            return z3.BoolVal(False)
         pt = p.t if isinstance(p, SStr) else z3.StringVal(p)
         return z3.Or(internal_code(pt), z3.And(flag(a.self, "local_only"), z3.PrefixOf(z3.StringVal("/"), pt)))
 
     def raises(self, cx, a):
-        return {"ValueError": self.cond(cx, a)}
+        return {"ValueError": self.cond(cx, a), "TypeError": z3.BoolVal(isinstance(a.path, BytesPath))}
+
+    def ensures(self, cx, a, res):
+        return [("a-path-that-is-not-text-never-passes-the-guard", z3.BoolVal(not isinstance(a.path, BytesPath)), "a bytes path (which h5py would accept) is refused by the guard — it is never waved through unjudged")]
 
     def on_raise(self, cx, a, exc):
         return [("no-raw-call", z3.BoolVal(not [e for e in cx.fx[a.get("fx0", 0) :] if e[0] == "RAW"]), "rejected before anything is done")]
